@@ -106,6 +106,14 @@ def domain(tier):
     TV = _VSUB[0]
     ex += [MVV("v"), TV("u", "k"), p.Sum((x, MVV("v"))), p.Product((MVV("v"), p.Subscript(a, MVV("w")))), p.Call(f, (TV("u"), MVV("v"))), p.Power(MVV("x"), TV("y")),
            p.CommonSubexpression(p.Sum((MVV("v"), 1))), p.Lookup(MVV("v"), "re"), p.Quotient(TV("u", "k"), p.Sum((x, TV("u", "j"))))]
+    # operands that are falsy as Python objects (Product/Quotient/Sum define __bool__): a product with a literal zero factor, a quotient with a zero numerator, a
+    # one-term sum of such - in every operand position of every node type (a truthiness test standing in for "is not None" skips them)
+    n, m = p.Variable("n"), p.Variable("m")
+    falsy = [p.Product((0, n)), p.Quotient(0, m), p.Sum((p.Product((0, n)),))]
+    ex += trees.depth1(trees.ALL_EVAL + [p.Slice], [falsy[0], falsy[1], x])
+    ex += [p.Subscript(a, (p.Slice((falsy[0], m)),)), p.Subscript(a, (p.Slice((None, falsy[1], falsy[2])),)), p.Call(f, (p.Slice((falsy[2],)), falsy[0])),
+           p.CommonSubexpression(falsy[0]), p.CommonSubexpression(p.Slice((falsy[1], None))), p.Lookup(falsy[1], "re"),
+           p.CallWithKwargs(f, (), immutabledict({"k": p.Slice((falsy[0], None, falsy[1]))}))]
     return trees.dedup(ex)
 
 
